@@ -38,8 +38,10 @@ RULE = (
     "scripts (length-1 episodes, terminated&truncated, truncation only, never-ending) with float32-representable "
     "rewards, 6-16 operations mixing seed(int|None) / set_options(None|dict|list, empty dicts) / reset / step / "
     "step_async + step_wait (with a sleep in between) / get_attr / set_attr (incl. the script position n_steps) / "
-    "env_method (args and kwargs) / has_attr / env_is_wrapped (40% of the sub-environments inside a pass-through "
-    "wrapper) / close (at the end, in the middle, while a step is outstanding, twice) with indices None | int | "
+    "env_method (args and kwargs) / has_attr / env_is_wrapped (half of the sub-environments inside one or two plain "
+    "gym.Wrapper layers, the inner one carrying its own `some_attr` that differs from the scripted environment's; 60% of "
+    "the set_attr calls are followed by get_attr and by a step / env_method that makes the scripted environment itself "
+    "read the attribute) / close (at the end, in the middle, while a step is outstanding, twice) with indices None | int | "
     "list / tuple / range incl. repeated, permuted and empty index lists; per-env per-call sleep patterns (identity, "
     "reversed, rotated, random, one straggler, none) that make the workers complete in chosen orders; start method "
     "fork (quick) or fork / forkserver / spawn (thorough). A small dedicated stream (kind=dtype) uses 0.1-like rewards "
@@ -117,31 +119,44 @@ class TimedEnv(E.ScriptedEnv):
 
 
 class PassThrough(gym.Wrapper):
-    """A wrapper that adds nothing: attribute writes that concern the scripted environment go to it (so that
-    `set_attr` through the wrapper acts like on the bare environment); everything else is gym.Wrapper's default."""
+    """A plain gym.Wrapper (no attribute forwarding). It carries its OWN attribute `some_attr` whose value differs from
+    the scripted environment's: `get_attr("some_attr")` must return the wrapper's, `env_method("add_to_attr")` acts on
+    the scripted environment's, and `set_attr` through the vectorised environment is `setattr` on the outermost
+    object, which the scripted environment underneath never sees."""
 
-    FORWARD = ("some_attr", "n_steps")
-
-    def __setattr__(self, name, value):
-        if name in PassThrough.FORWARD:
-            setattr(self.env, name, value)
-        else:
-            super().__setattr__(name, value)
+    def __init__(self, env):
+        super().__init__(env)
+        self.some_attr = 1000 + env.env_id
 
 
-WRAPPER_CLASSES = {"PassThrough": PassThrough, "TimeLimit": gym.wrappers.TimeLimit}
+class OuterWrap(gym.Wrapper):
+    """second, attribute-free wrapper layer"""
+
+
+WRAPPER_CLASSES = {"PassThrough": PassThrough, "OuterWrap": OuterWrap, "TimeLimit": gym.wrappers.TimeLimit}
+
+
+def case_depths(case):
+    """wrapper layers per sub-environment (older cases carry booleans under "wrapped")"""
+    if "depth" in case:
+        return list(case["depth"])
+    return [1 if w else 0 for w in (case.get("wrapped") or [False] * case["n"])]
 
 
 class TimedEnvFn:
     """picklable constructor (fork, forkserver, spawn)"""
 
-    def __init__(self, wrapped=False, **kw):
+    def __init__(self, depth=0, **kw):
         self.kw = kw
-        self.wrapped = wrapped
+        self.depth = depth
 
     def __call__(self):
         env = TimedEnv(**self.kw)
-        return PassThrough(env) if self.wrapped else env
+        if self.depth >= 1:
+            env = PassThrough(env)
+        if self.depth >= 2:
+            env = OuterWrap(env)
+        return env
 
 
 # ------------------------------------------------------------------------------------------------
@@ -298,7 +313,7 @@ def gen_main(rng, ctx, kind="main"):
             else:
                 ops.append({"op": "step", "acts": acts})
         elif o == "is_wrapped":
-            ops.append({"op": "is_wrapped", "cls": rng.choice(["PassThrough", "PassThrough", "TimeLimit"]),
+            ops.append({"op": "is_wrapped", "cls": rng.choice(["PassThrough", "PassThrough", "OuterWrap", "TimeLimit"]),
                         "idx": gen_indices(rng, n)})
         elif o == "has_attr":
             ops.append({"op": "has_attr", "name": rng.choice(ATTRS + ["no_such_attr", "script", "nope"])})
@@ -314,6 +329,16 @@ def gen_main(rng, ctx, kind="main"):
             name = rng.choice(["some_attr", "n_steps"])
             v = rng.randint(-50, 50) if name == "some_attr" else rng.randint(0, 7)
             ops.append({"op": "set_attr", "name": name, "v": v, "idx": gen_indices(rng, n)})
+            if rng.chance(0.6):
+                # what the write did must show (or, through a wrapper, must NOT show) in what the scripted
+                # environment itself does afterwards, not only in get_attr
+                ops.append({"op": "get_attr", "name": name, "idx": None})
+                if name == "some_attr":
+                    ops.append({"op": "env_method", "name": "add_to_attr", "args": [rng.randint(-4, 4)], "kwargs": {},
+                                "idx": None})
+                elif have_reset:
+                    ops.append({"op": "step", "acts": [gen_action(rng, act_kind) for _ in range(n)]})
+                    ops.append({"op": "get_attr", "name": name, "idx": None})
         else:
             if rng.chance(0.6):
                 kw = {"y": rng.randint(-3, 3)} if rng.chance(0.5) else {}
@@ -341,9 +366,9 @@ def gen_main(rng, ctx, kind="main"):
         if rng.chance(0.35):
             ops.append({"op": "close", "sleep_ms": 0})
     unit_ms = rng.choice([2, 3]) if not ctx.thorough else rng.choice([2, 3, 5])
-    wrapped = [rng.chance(0.4) for _ in range(n)]
+    depth = [rng.weighted([(0, 5), (1, 3), (2, 2)]) for _ in range(n)]
     return {"kind": kind, "n": n, "obs_kind": obs_kind, "act_kind": act_kind, "start": start, "scripts": scripts,
-            "wrapped": wrapped,
+            "depth": depth,
             "pattern": pat, "delays": delays, "unit_ms": unit_ms, "ops": ops, "npseed": rng.randint(0, 2**31 - 1),
             "sched_seed": rng.randint(0, 2**31 - 1)}
 
@@ -655,10 +680,10 @@ def run_case(ctx, case):
     try:
         base = [dict(env_id=i, obs_kind=ok, act_kind=case["act_kind"], script=case["scripts"][i]) for i in range(n)]
         stamp = [os.path.join(tmp, f"env{i}.stamps") for i in range(n)]
-        wrapped = case.get("wrapped") or [False] * n
-        dummy = DummyVecEnv([TimedEnvFn(wrapped=wrapped[i], **b) for i, b in enumerate(base)])
+        depth = case_depths(case)
+        dummy = DummyVecEnv([TimedEnvFn(depth=depth[i], **b) for i, b in enumerate(base)])
         sub = call_with_timeout(lambda: SubprocVecEnv(
-            [TimedEnvFn(wrapped=wrapped[i], delays=case["delays"][i], unit=case["unit_ms"] / 1000.0,
+            [TimedEnvFn(depth=depth[i], delays=case["delays"][i], unit=case["unit_ms"] / 1000.0,
                         stamp_path=stamp[i], **b)
              for i, b in enumerate(base)], start_method=case["start"]), 600.0)
         windows = []
@@ -752,7 +777,8 @@ def run_case(ctx, case):
                 if d:
                     sig = ({"kind": "result", "op": kind}, d)
             if sig is None and kind == "is_wrapped":
-                truth = [bool(wrapped[i]) and op["cls"] == "PassThrough" for i in idx_targets(op["idx"], n)]
+                need = {"PassThrough": 1, "OuterWrap": 2}.get(op["cls"], 99)
+                truth = [depth[i] >= need for i in idx_targets(op["idx"], n)]
                 for name, r in (("dummy", rd), ("subproc", rs)):
                     if list(r) != truth:
                         sig = ({"kind": "is_wrapped", "who": name}, f"{list(r)!r}, expected {truth}")
@@ -863,9 +889,10 @@ def model_ops(case, outs_s, orders, which):
 
     n = case["n"]
     rng = Rng(case["sched_seed"])
-    wrapped = case.get("wrapped") or [False] * n
+    depth = case_depths(case)
     lines = [{"op": "new", "envs": [{"env_id": i, "script": [[ratj(F(float(e[0]))), bool(e[1]), bool(e[2])] for e in case["scripts"][i]],
-                                     "some_attr": 100 + i, "wrapped": bool(wrapped[i])} for i in range(n)]}]
+                                     "some_attr": 100 + i, "depth": depth[i],
+                                     "shadow": [["some_attr", 1000 + i]] if depth[i] >= 1 else []} for i in range(n)]}]
     for k, op in enumerate(case["ops"][: len(outs_s)]):
         sch = sched_observed(op, n, orders[k] if k < len(orders) else []) if which == "observed" else sched_random(rng, op, n)
         kind = op["op"]
@@ -918,8 +945,17 @@ def check_cases(ctx, cases):
         rep.count(f"start:{case['start']}")
         rep.count(f"delay_pattern:{case['pattern']}")
         ph = "idle"
+        dps = case_depths(case)
+        for dd in dps:
+            rep.count(f"wrapper_layers={dd}")
         for o in case["ops"]:
             rep.count(f"op:{o['op']}")
+            if o["op"] == "set_attr":
+                tg = idx_targets(o["idx"], n)
+                if any(dps[i] > 0 for i in tg):
+                    rep.count(f"set_attr({o['name']}) reaching a wrapped env")
+                if any(dps[i] == 0 for i in tg):
+                    rep.count(f"set_attr({o['name']}) reaching a bare env")
             if o["op"] == "close":
                 rep.count("close:" + {"idle": "no step outstanding", "waiting": "while a step is outstanding",
                                       "closed": "second close"}[ph])
